@@ -17,7 +17,7 @@ RULE = (
     "(shape, observed pattern, k, batch set); non-trivial = the batch is non-empty or some sample has fewer than k plates"
 )
 ASSUMPTIONS = ["states are memoised on the set of batch plates (quick: <=9 plates; thorough: always) or on per-sample batch counts (larger shapes)"]
-REQUIRED = {"states_checked": {"quick": 3000, "thorough": 20000}, "walk_steps": {"quick": 300, "thorough": 5000}, "multi_sample_refusals": {"quick": 8, "thorough": 50}, "batches_revealed_in_place": {"quick": 60, "thorough": 800}}
+REQUIRED = {"holders_not_in_plate_id_order": {"quick": 1000, "thorough": 8000}, "states_checked": {"quick": 3000, "thorough": 20000}, "walk_steps": {"quick": 300, "thorough": 5000}, "multi_sample_refusals": {"quick": 8, "thorough": 50}, "batches_revealed_in_place": {"quick": 60, "thorough": 800}}
 
 
 def build_screen(Screen, shape, observed_plates=(), multi=None):
@@ -81,8 +81,15 @@ def run_shard(rec, tier, seed, shard, nshards):
 
     rng = kit.rng_for(seed, NUM, shard)
 
+    order_rng = np.random.default_rng(int(rng.integers(0, 2**31)))
+
     def holder_for(ids, best=None, scores=None):
         h = ChunkedScoresHolder(len(ids))
+        ids = list(ids)
+        if len(ids) > 1 and order_rng.random() < 0.6:
+            # score chunks are combined in whatever order the files are listed: the holder is not sorted by plate id
+            ids = [ids[i] for i in order_rng.permutation(len(ids))]
+            rec.count("holders_not_in_plate_id_order")
         for p in ids:
             h.add_score(int(p), (0.0 if p == best else 1.0) if scores is None else float(scores[p]))
         return h
